@@ -1,10 +1,12 @@
 import Driver.Util
 import Driver.Route
 import Driver.Group
+import Driver.GroupSched
 -- engines of work area Routing: import your Driver.<Engine> modules above and list them here
 namespace Driver.Reg.Routing
 def engines : List (String × IO UInt32) := [
   ("route", Driver.runEngine Driver.Route.engine),
-  ("group", Driver.runEngine Driver.Group.engine)
+  ("group", Driver.runEngine Driver.Group.engine),
+  ("groupsched", Driver.runEngine Driver.GroupSched.engine)
 ]
 end Driver.Reg.Routing
